@@ -187,3 +187,170 @@ Print Assumptions C19_walker.
 
 Example C19_walker_values : map walker [0; 1; 2; 3; 4; 5]%Z = [0; 1; 0; 1; 0; 1]%Z.
 Proof. exact ex_walker. Qed.
+
+(* ---------------- the regret discount factors themselves ---------------- *)
+(* C19_regret_weights / C19_regret_phase above take the factors as an input list and assume
+   0 < factor <= 1 and factor = 1 outside the phase.  Model/DiscountR.v models the function that
+   produces them (Discount::regret with the phase switch of Profile::add_regret, over the reals,
+   powf = Rpower, period / alpha / omega / CFR_DISCOUNT_PHASE the generated constants); the
+   theorems below prove those assumptions of it and restate the weight claims for the run whose
+   factor list IS the list of its values (`concrete_pairs`), with no hypothesis about the factors.
+   Over R the theorems depend on the standard-library axioms of the classical reals. *)
+From Coq Require Import Reals Qreals.
+From RP Require Import Model.DiscountR Spec.SpecDiscountR Proofs.C19_Factor.
+
+(* from epoch 1 on the factor lies in (0, 1], whatever the regret *)
+Theorem C19_factor_range : forall (t : Z) (r : R), (1 <= t)%Z -> (0 < regret_factor t r <= 1)%R.
+Proof. exact factor_range. Qed.
+Print Assumptions C19_factor_range.
+Example C19_factor_range_hyp : (1 <= 4)%Z.
+Proof. discriminate. Qed.
+
+(* it is exactly one off the period, for a zero regret, and once the discount phase is over *)
+Theorem C19_factor_one : forall (t : Z) (r : R),
+  ((t mod DISCOUNT_PERIOD <> 0)%Z -> regret_factor t r = 1%R) /\
+  regret_factor t 0 = 1%R /\
+  ((CFR_DISCOUNT_PHASE <= t)%Z -> regret_factor t r = 1%R).
+Proof.
+  exact (fun t r => conj (factor_off_period t r) (conj (factor_zero_regret t) (factor_after_phase t r))).
+Qed.
+Print Assumptions C19_factor_one.
+(* with the generated DISCOUNT_PERIOD = 1 every epoch is on the period: the first case is empty *)
+Example C19_factor_one_hyp : (forall t : Z, (t mod DISCOUNT_PERIOD = 0)%Z) /\ (CFR_DISCOUNT_PHASE <= 390)%Z.
+Proof. split; [ exact on_period_any | discriminate ]. Qed.
+
+(* epoch 0 is the exception to the range: (0 / period)^a = 0, so a non-zero regret gets the factor
+   0 / (0 + 1) = 0.  It multiplies an accumulator that is still empty on a fresh profile (and wipes
+   it otherwise, C19_regret_epoch0_erases below); it is never a factor "after" a recorded regret,
+   so it enters no weight. *)
+Theorem C19_factor_epoch_0 : forall r : R, r <> 0%R -> regret_factor 0 r = 0%R.
+Proof. exact factor_epoch_0. Qed.
+Print Assumptions C19_factor_epoch_0.
+Theorem C19_factor_nonneg : forall (t : Z) (r : R), (0 <= t)%Z -> (0 <= regret_factor t r <= 1)%R.
+Proof. exact factor_nonneg. Qed.
+Print Assumptions C19_factor_nonneg.
+
+(* inside the phase, on the period: x / (x + 1) with x = (t / period)^alpha resp. ^omega *)
+Theorem C19_factor_closed_form : forall (t : Z) (r : R),
+  (t < CFR_DISCOUNT_PHASE)%Z -> (t mod DISCOUNT_PERIOD = 0)%Z ->
+  ((0 < r)%R -> regret_factor t r = squash (powfR (periodsR t) alphaR)) /\
+  ((r < 0)%R -> regret_factor t r = squash (powfR (periodsR t) omegaR)).
+Proof.
+  exact (fun t r Ht Hm => conj (factor_pos_regret t r Ht Hm) (factor_neg_regret t r Ht Hm)).
+Qed.
+Print Assumptions C19_factor_closed_form.
+
+(* along the multiples of the period, for a fixed sign of the regret, later epochs discount less;
+   strictly so inside the phase *)
+Theorem C19_factor_monotone : forall (t t' : Z) (r r' : R), (0 <= t <= t')%Z ->
+  (t mod DISCOUNT_PERIOD = 0)%Z -> (t' mod DISCOUNT_PERIOD = 0)%Z ->
+  ((0 < r /\ 0 < r') \/ (r < 0 /\ r' < 0))%R ->
+  (regret_factor t r <= regret_factor t' r')%R.
+Proof. exact factor_monotone. Qed.
+Print Assumptions C19_factor_monotone.
+Theorem C19_factor_strictly_monotone : forall (t t' : Z) (r r' : R),
+  (0 <= t < t')%Z -> (t' < CFR_DISCOUNT_PHASE)%Z ->
+  (t mod DISCOUNT_PERIOD = 0)%Z -> (t' mod DISCOUNT_PERIOD = 0)%Z ->
+  ((0 < r /\ 0 < r') \/ (r < 0 /\ r' < 0))%R ->
+  (regret_factor t r < regret_factor t' r')%R.
+Proof. exact factor_strictly_monotone. Qed.
+Print Assumptions C19_factor_strictly_monotone.
+Example C19_factor_monotone_hyp :
+  (0 <= 1 < 4)%Z /\ (4 < CFR_DISCOUNT_PHASE)%Z /\ (1 mod DISCOUNT_PERIOD = 0)%Z /\
+  (4 mod DISCOUNT_PERIOD = 0)%Z /\ ((0 < 5 /\ 0 < 7) \/ (5 < 0 /\ 7 < 0))%R.
+Proof. repeat split; try reflexivity; try discriminate. left. split; apply IZR_lt; reflexivity. Qed.
+(* at one epoch a negative regret is discounted at least as much as a positive one (omega <= alpha) *)
+Theorem C19_factor_neg_le_pos : forall (t : Z) (r r' : R), (0 <= t)%Z -> (r < 0)%R -> (0 < r')%R ->
+  (regret_factor t r <= regret_factor t r')%R.
+Proof. exact factor_neg_le_pos. Qed.
+Print Assumptions C19_factor_neg_le_pos.
+
+Example C19_factor_values :
+  (forall r : R, r <> 0%R -> regret_factor 0 r = 0%R) /\
+  (forall r : R, r <> 0%R -> regret_factor 1 r = (/ 2)%R) /\
+  regret_factor 4 5 = (8 / 9)%R /\ regret_factor 4 (-5) = (2 / 3)%R /\ regret_factor 4 0 = 1%R /\
+  (regret_factor 389 7 < 1)%R /\ regret_factor 390 7 = 1%R /\ regret_factor 1000 (-7) = 1%R.
+Proof. exact ex_factor_values. Qed.
+Print Assumptions C19_factor_values.
+
+(* regret_runR is the transcription over R of regret_run *)
+Theorem C19_regret_run_transcription : forall (drs : list (Q * Q)) (acc : Q),
+  Q2R (regret_run acc drs) =
+  regret_runR (Q2R acc) (map (fun dr => (Q2R (fst dr), Q2R (snd dr))) drs).
+Proof. exact regret_runR_of_Q. Qed.
+Print Assumptions C19_regret_run_transcription.
+
+(* THE RUN WITH THE REAL FACTORS.  trs = [(t_0, r_0); (t_1, r_1); ...]: the epochs at which one
+   action of one information set is updated (strictly increasing, t_0 >= 0) and the regrets fed in;
+   concrete_pairs trs = [(regret_factor t_0 r_0, r_0); ...] is what Memory::add_regret receives.
+   C19_regret_weights with its hypothesis about the factors discharged: *)
+Theorem C19_regret_weights_concrete : forall trs : list (Z * R), increasing_from 0 trs ->
+  let drs := concrete_pairs trs in
+  sum_regretR drs = sum_weightedR drs /\
+  (forall s, 0 < weightR drs s <= 1)%R /\
+  (forall s, weightR drs s <= weightR drs (S s))%R /\
+  (forall s, ((S s < length trs)%nat -> (CFR_DISCOUNT_PHASE <= epoch_at trs (S s))%Z) ->
+             weightR drs s = 1%R).
+Proof. exact regret_weights_concrete. Qed.
+Print Assumptions C19_regret_weights_concrete.
+
+Theorem C19_regret_weighted_sum_concrete : forall (acc : R) (trs : list (Z * R)),
+  concrete_run acc trs =
+    (acc * prodR (map fst (concrete_pairs trs)) + sum_weightedR (concrete_pairs trs))%R.
+Proof. exact regret_weighted_sum_concrete. Qed.
+Print Assumptions C19_regret_weighted_sum_concrete.
+
+(* an update at epoch 0 with a non-zero regret erases whatever the accumulator held *)
+Theorem C19_regret_epoch0_erases : forall (acc r : R) (trs : list (Z * R)), r <> 0%R ->
+  concrete_run acc ((0%Z, r) :: trs) = sum_weightedR (concrete_pairs ((0%Z, r) :: trs)).
+Proof. exact regret_epoch0_erases. Qed.
+Print Assumptions C19_regret_epoch0_erases.
+
+(* the same for an information set updated at every epoch t0, t0 + 1, ...: position u is epoch
+   t0 + u, its factor is regret_factor (t0 + u) r_u *)
+Theorem C19_regret_weights_consecutive : forall (t0 : Z) (rs : list R), (0 <= t0)%Z ->
+  let drs := concrete_pairs (from_epoch t0 rs) in
+  (forall u, (u < length rs)%nat ->
+     factor_atR drs u = regret_factor (t0 + Z.of_nat u) (nth u rs 0%R) /\
+     regret_atR drs u = nth u rs 0%R) /\
+  sum_regretR drs = sum_weightedR drs /\
+  (forall s, 0 < weightR drs s <= 1)%R /\
+  (forall s, weightR drs s <= weightR drs (S s))%R /\
+  (forall s, (CFR_DISCOUNT_PHASE <= t0 + Z.of_nat (S s))%Z -> weightR drs s = 1%R).
+Proof. exact regret_weights_consecutive. Qed.
+Print Assumptions C19_regret_weights_consecutive.
+
+Example C19_regret_weights_concrete_hyp : increasing_from 0 ex_trs /\ (0 <= 388)%Z.
+Proof. split; [ exact ex_trs_increasing | discriminate ]. Qed.
+(* updates at epochs 0, 1, 4, 390 with regrets 5, -3, -2, 1 *)
+Example C19_regret_weights_concrete_numbers :
+  ex_trs = [(0%Z, 5%R); (1%Z, (-3)%R); (4%Z, (-2)%R); (390%Z, 1%R)] /\
+  concrete_pairs ex_trs = [(0, 5); (/ 2, -3); (2 / 3, -2); (1, 1)]%R /\
+  map (weightR (concrete_pairs ex_trs)) [0; 1; 2; 3]%nat = [/ 3; 2 / 3; 1; 1]%R /\
+  forall acc : R, concrete_run acc ex_trs = (5 * / 3 + (-3) * (2 / 3) + (-2) * 1 + 1 * 1)%R.
+Proof. exact (conj eq_refl (conj ex_trs_pairs ex_trs_numbers)). Qed.
+Print Assumptions C19_regret_weights_concrete_numbers.
+
+(* C19_regret_phase with its hypothesis discharged: a regret whose next update falls outside the
+   discount phase (or that has no next update) is kept with weight exactly one *)
+Theorem C19_regret_phase_concrete : forall (trs : list (Z * R)) (s : nat), increasing_from 0 trs ->
+  ((S s < length trs)%nat -> in_discount_phase (epoch_at trs (S s)) = false) ->
+  weightR (concrete_pairs trs) s = 1%R.
+Proof. exact regret_phase_concrete. Qed.
+Print Assumptions C19_regret_phase_concrete.
+(* in the shape of C19_regret_phase: sequences starting at epoch 0, position u = epoch u *)
+Theorem C19_regret_phase_concrete_from_0 : forall (rs : list R) (s : nat),
+  (s < length rs)%nat -> in_discount_phase (Z.of_nat (S s)) = false ->
+  weightR (concrete_pairs (from_epoch 0 rs)) s = 1%R.
+Proof. exact regret_phase_consecutive. Qed.
+Print Assumptions C19_regret_phase_concrete_from_0.
+
+Example C19_regret_phase_concrete_hyp :
+  increasing_from 0 ex_trs /\ ((S 2 < length ex_trs)%nat -> in_discount_phase (epoch_at ex_trs (S 2)) = false).
+Proof. split; [ exact ex_trs_increasing | intros _; reflexivity ]. Qed.
+(* epochs 388 .. 391: the regret of epoch 388 is still discounted at epoch 389; that of 389 is not *)
+Example C19_regret_phase_concrete_numbers :
+  let drs := concrete_pairs (from_epoch 388 [1; 1; 1; 1]%R) in
+  (weightR drs 0 < 1)%R /\ weightR drs 1 = 1%R /\ weightR drs 2 = 1%R.
+Proof. exact ex_consecutive_numbers. Qed.
+Print Assumptions C19_regret_phase_concrete_numbers.
